@@ -96,6 +96,11 @@ def gen_closed(r, tier):
     return ops
 
 
+def gen_wire_groups(r, tier):
+    from .c20 import gen_wire_groups as g
+    return g(r, tier)
+
+
 class C04(Prop):
     id = "C04"
     lean_modules = ["Fan2go.Props.C04", "Fan2go.Props.C04pid"]
@@ -111,10 +116,19 @@ class C04(Prop):
     streams = [Stream("loop", gen_loop, parallel=8), Stream("closed", gen_closed, parallel=8),
                # which algorithm the real initializeFanControllers wires for a configuration (absent = default PID,
                # direct, direct+limit, pid, deprecated controlLoop block)
-               Stream("wiring", lambda r, tier: streams.gen_wiring(r, 300 if tier == "quick" else 6000), parallel=4)]
+               Stream("wiring", lambda r, tier: streams.gen_wiring(r, 300 if tier == "quick" else 6000), parallel=4),
+               # several fans wired by ONE call: each gets control-loop state of its own (what "depends only on the
+               # control-algorithm settings, not on what happened before" presupposes; seed C04j: one default PID loop for all)
+               Stream("wiring-groups", gen_wire_groups, parallel=2)]
 
     def oracle(self, name, ops, go):
         out = []
+        if name == "wiring-groups":
+            for op, g in zip(ops, go):
+                if op.startswith("wire.group") and (not g.startswith("ok") or " shared=0" not in g):
+                    out.append(viol(f"fans wired together share one control-loop object ({op} -> {g}): each fan's request then depends on what the "
+                                    "other fans' loops did before, and does not settle at its own curve's steady value", ["#case wire groups", op], ["#case wire groups", g]))
+            return out
         if name != "closed":
             return out
         for cops, cgo in cases(ops, go):
